@@ -278,19 +278,26 @@ func langOf(job *pipeJob, path string) string {
 // segment equal to the package name (any letter case) or a file name whose first dot-separated part is the package.
 func pkgOf(job *pipeJob, path string) string {
 	segs := strings.Split(filepath.ToSlash(path), "/")
-	for i, seg := range segs {
-		for _, p := range job.Pkgs {
-			if strings.EqualFold(seg, p) {
-				return p
-			}
-			if i == len(segs)-1 {
-				if head, _, ok := strings.Cut(seg, "."); ok && strings.EqualFold(head, p) {
+	match := func(eq func(a, b string) bool) string {
+		for i, seg := range segs {
+			for _, p := range job.Pkgs {
+				if eq(seg, p) {
 					return p
+				}
+				if i == len(segs)-1 {
+					if head, _, ok := strings.Cut(seg, "."); ok && eq(head, p) {
+						return p
+					}
 				}
 			}
 		}
+		return ""
 	}
-	return ""
+	// the exact spelling first (packages may differ by letter case only), then any letter case (PHP, Java ... re-case directories)
+	if p := match(func(a, b string) bool { return a == b }); p != "" {
+		return p
+	}
+	return match(strings.EqualFold)
 }
 
 func filesByLang(job *pipeJob, files map[string]string) map[string]map[string]string {
@@ -961,6 +968,28 @@ func c07Immut(args []string) int {
 					continue
 				}
 				check("context:"+n, nil)
+				// the builder transformations (veneers) are handed the language's schemas and the derived builders: they may
+				// only change the builders. Replayed here step by step, as ContextForLanguage does it.
+				if p.Output.Builders && len(p.Transforms.VeneersDirectories) > 0 {
+					var files []string
+					for _, dir := range p.Transforms.VeneersDirectories {
+						m, _ := filepath.Glob(filepath.Join(dir, "*.yaml"))
+						files = append(files, m...)
+					}
+					rewriter, rerr := verifapi.NewVeneersLoader().RewriterFrom(files, verifapi.RewriteConfig{})
+					own, perr := langs[n].CompilerPasses().Concat(p.Transforms.FinalPasses).Process(schemas)
+					if rerr == nil && perr == nil {
+						builders := (&verifapi.BuilderGenerator{}).FromAST(own)
+						vb, _ := json.Marshal(own)
+						_, aerr := rewriter.ApplyTo(own, builders, langs[n].Name())
+						va, _ := json.Marshal(own)
+						st := J{"step": "veneers:" + n, "before": sha(vb), "after": sha(va), "same": bytes.Equal(vb, va), "err": errStr(aerr)}
+						if !bytes.Equal(vb, va) {
+							st["first_difference"] = pipeFirstDiff(vb, va)
+						}
+						steps = append(steps, st)
+					}
+				}
 				ctxBefore, _ := json.Marshal(c.Schemas)
 				_, err = langs[n].Jennies(cfg).GenerateFS(c)
 				e := ""
